@@ -297,7 +297,11 @@ class SymRepo(G.Repository):
         fn = getattr(self, '_git_' + sub.replace('-', '_'), None)
         if fn is None:
             raise HarnessError('symgit: unsupported git command %r' % (toks,))
-        return fn(rest, kw)
+        try:
+            return fn(rest, kw)
+        except CommandError as e:
+            # same text as bert_e.lib.simplecmd produces (it echoes the command line)
+            raise CommandError('Command %s returned with code 1: %s' % (command, e)) from None
 
     def _git_config(self, rest, kw):
         return ''
